@@ -39,7 +39,10 @@ WRITES = ["setitem", "setslice", "iadd", "np_add_out", "fill", "sort", "copyto",
 # another field is then constructed (copies made through the public API must be protected like any other source)
 # only derivations that yield NEW memory (or the same array object): a view of a still-writable base would make the base
 # "another alias of the same memory", which the statement does not cover
-RECONS = ["fancy", "mask", "pickle", "deepcopy", "copy_copy", "copy_method", "np_array"]
+RECONS = ["fancy", "mask", "pickle", "deepcopy", "copy_copy", "copy_method", "np_array",
+          # constructing with a converting keyword (dtype=...) where the installed constructors offer one (discovered by
+          # introspection: the pinned tree has none) - a conversion must produce a new array, never touch the source wrapper
+          "ctor_dtype"]
 RECON_CTORS = ["Field", "from_raw", "makeField", "Field_of_AnyArray"]
 
 
@@ -195,6 +198,31 @@ def step_reconstruct(w, how, j, ctor):
         return
     isany = isinstance(obj, ift.AnyArray)
     wrap = (lambda x: ift.AnyArray(x)) if isany else (lambda x: x)
+    if how == "ctor_dtype":
+        import inspect
+        fn = {"Field": None, "from_raw": ift.Field.from_raw, "makeField": ift.makeField,
+              "Field_of_AnyArray": ift.AnyArray}[ctor]
+        try:
+            if fn is None or "dtype" not in inspect.signature(fn).parameters:
+                return
+        except (TypeError, ValueError):
+            return
+        try:
+            src_dt = np.dtype(obj.dtype)
+            dt = np.float32 if src_dt != np.float32 else np.float64
+            if fn is ift.AnyArray:
+                new = ift.AnyArray(obj, dtype=dt)
+                f = ift.Field(domain_for(tuple(new.shape)), new)
+            else:
+                f = fn(domain_for(tuple(obj.shape)), obj, dtype=dt)
+                new = f.val
+        except (TypeError, ValueError, IndexError, AttributeError, NotImplementedError):
+            return
+        w.targets.append({"obj": new, "label": "derived-source:ctor_dtype", "copy": False})
+        w.fields.append({"f": f, "snap": read(f), "ctor": ctor, "label": f"{ctor}(dtype-converted {t['label']})"})
+        w.stats["fields"] += 1
+        w.stats["fields_via_converting_keyword"] = w.stats.get("fields_via_converting_keyword", 0) + 1
+        return
     try:
         if how == "fancy":
             new = obj[wrap(np.arange(obj.shape[0])[::-1].copy())]
